@@ -597,6 +597,37 @@ def run(tier, seed, replay):
                 for x_, y_ in ((A_._dims, B_._dims), (A_._dims[0], B_._dims[0]), (k_._dims, ket[ra]._dims)):
                     if (x_ != y_) == (x_ == y_):
                         rep.violation(core.Violation("C02:ne-not-negation-of-eq", f"labels {x_} and {y_} (representations {ra}, {rb}): == gives {x_ == y_} and != gives {x_ != y_}", {"sub": sub, "reps": [ra, rb]}))
+    # matrix elements and overlaps follow the same rule as the products they stand for: <l|A|r> exists when bra * A * ket
+    # does, <a|b> when bra * ket does
+    for dl, dop, dr in (([2, 3], [[2, 3], [2, 3]], [2, 3]), ([6], [[6], [6]], [6]), ([6], [[2, 3], [2, 3]], [2, 3]), ([3, 2], [[2, 3], [2, 3]], [2, 3]), ([2, 3], [[6], [6]], [3, 2]),
+                        ([2, 3], [[2, 3], [3, 2]], [3, 2]), ([2, 3], [[2, 3], [3, 2]], [2, 3])):
+        vl = rng.integers(-3, 4, (6, 1)) + 1j * rng.integers(-3, 4, (6, 1))
+        vr = rng.integers(-3, 4, (6, 1)) + 1j * rng.integers(-3, 4, (6, 1))
+        Am = rng.integers(-3, 4, (6, 6)) + 1j * rng.integers(-3, 4, (6, 6))
+        for fmt in ("dense", "csr"):
+            kl, kr, Aq = qutip.Qobj(vl, dims=[dl, [1] * len(dl)]).to(fmt), qutip.Qobj(vr, dims=[dr, [1] * len(dr)]).to(fmt), qutip.Qobj(Am, dims=dop).to(fmt)
+            rep.evaluations += 1
+            rep.count("matrix-element-labels")
+            for nm_, fn_, ref_fn, want_val in (("A.matrix_element(bra, ket)", lambda: Aq.matrix_element(kl.dag(), kr), lambda: kl.dag() * Aq * kr, (vl.conj().T @ Am @ vr)[0, 0]),
+                                               ("A.matrix_element(ket, ket)", lambda: Aq.matrix_element(kl, kr), lambda: kl.dag() * Aq * kr, (vl.conj().T @ Am @ vr)[0, 0]),
+                                               ("ket.overlap(ket)", lambda: kl.overlap(kr), lambda: kl.dag() * kr, (vl.conj().T @ vr)[0, 0]),
+                                               ("bra.overlap(ket)", lambda: kl.dag().overlap(kr), lambda: kl.dag() * kr, (vl.conj().T @ vr)[0, 0])):
+                try:
+                    ref_fn()
+                    composes = True
+                except (TypeError, ValueError):
+                    composes = False
+                try:
+                    got_ = fn_()
+                    raised = False
+                except (TypeError, ValueError):
+                    raised = True
+                if composes and raised:
+                    rep.violation(core.Violation(f"C02:matrix-element-refused:{nm_}", f"{nm_} with labels {kl.dims}, {Aq.dims}, {kr.dims} ({fmt}) is refused although the product it stands for is defined", {"dims": [dl, dop, dr]}))
+                elif not composes and not raised:
+                    rep.violation(core.Violation(f"C02:matrix-element-labels:{nm_}", f"{nm_} with labels {kl.dims}, {Aq.dims}, {kr.dims} ({fmt}) returns {got_} although the product it stands for is refused (the labels do not compose)", {"dims": [dl, dop, dr]}))
+                elif composes and abs(got_ - want_val) > 1e-9 * (1 + abs(want_val)):
+                    rep.violation(core.Violation(f"C02:matrix-element-value:{nm_}", f"{nm_} gives {got_}, NumPy gives {want_val}", {"dims": [dl, dop, dr]}))
     model = core.run_driver(lines)
     ndis, first = 0, None
     for (s, r), m in zip(specs, model[:len(specs)]):
